@@ -150,3 +150,23 @@ pub fn exp_i32f32() {
     let _r: Result<I32F32, ()> = tr::exp(x);
     assert!(hk::ticks() <= BOUND_64);
 }
+
+// ---- C17 on the whole domain (no restriction on the magnitude of the angle): iteration count only
+#[cfg(kani)]
+#[kani::proof]
+#[kani::unwind(70)]
+pub fn sin_ticks_i9f23_whole_domain() {
+    let x = I9F23::from_bits(kani::any());
+    hk::reset_ticks();
+    let _y = tr::sin(x);
+    assert!(hk::ticks() <= BOUND_32);
+}
+#[cfg(kani)]
+#[kani::proof]
+#[kani::unwind(70)]
+pub fn sin_ticks_i32f32_whole_domain() {
+    let x = I32F32::from_bits(kani::any());
+    hk::reset_ticks();
+    let _y = tr::sin(x);
+    assert!(hk::ticks() <= BOUND_64);
+}
